@@ -59,6 +59,10 @@ def _eta(case):
         r[0], r[-1] = 0.1, 14.5
         v = np.sort(-7.32 + 14.64 * rs.rand(nv))
         v[0], v[-1] = -7.32, 7.32
+    if case.get('int_coords'):
+        # coordinates stored as integers (Layout, Grid and the diagnostics take any numeric array)
+        r = np.arange(2, 2 + nr, dtype=np.int64) * (2 if case['eseed'] % 2 else 1)
+        v = np.arange(-(nv // 2), nv - nv // 2, dtype=np.int64)
     q = np.linspace(0, 2 * np.pi, nq, endpoint=False)
     z = np.linspace(0, 31.0, nz, endpoint=False)
     return [r, q, z, v]
@@ -84,7 +88,7 @@ def gen_norms(rng):
     sched['poison'] = rng.random() < 0.5
     return dict(kind='norms', P=g[0] * g[1], npts=npts, grid=g, uniform=rng.random() < 0.2,
                 eseed=rng.randrange(1 << 30), fseed=rng.randrange(1 << 30), one=rng.random() < 0.15,
-                root=rng.randrange(g[0] * g[1]), fix_axis=rng.randrange(4), second_grid=rng.random() < 0.3, sched=sched)
+                root=rng.randrange(g[0] * g[1]), fix_axis=rng.randrange(4), second_grid=rng.random() < 0.3, int_coords=rng.random() < 0.08, sched=sched)
 
 
 def gen_collector(rng):
